@@ -109,7 +109,7 @@ Section WithOracle.
 
   Lemma loaded_answer_spec f cl : loaded_answer f cl = spec_answer O c f cl.
   Proof.
-    unfold loaded_answer. destruct f as [| |s]; [reflexivity|reflexivity|].
+    unfold loaded_answer. destruct f as [| |s|e]; [reflexivity|reflexivity| |reflexivity].
     rewrite load_text. cbn [spec_answer].
     destruct (first_error O c [] (file_lines s)); [reflexivity|].
     destruct cl as [id|key v]; cbn [answer_of].
@@ -137,49 +137,101 @@ Section WithOracle.
     Lemma inv_fresh : inv fresh.
     Proof. exact I. Qed.
 
-    Lemma do_call_inv v src cl : inv src ->
-      inv (fst (do_call O c (v, content_of v) src cl)) /\
-      snd (do_call O c (v, content_of v) src cl) = loaded_answer (content_of v) cl.
+    Definition hitb (memo : option N) (v : N) : bool :=
+      cache c && match memo with Some v' => v' =? v | None => false end.
+    (* which stat version the snapshot is remembered for after a call that saw (v, f) *)
+    Definition memo_after (memo : option N) (v : N) (f : fstate) : option N :=
+      if hitb memo v then memo
+      else if cache c then match load O c f with Ok _ => Some v | Exc _ => None end else None.
+
+    Lemma do_call_gen v f src cl : inv src ->
+      (f = content_of v \/ exists e, load O c f = Exc e) ->
+      inv (fst (do_call O c (v, f) src cl)) /\
+      fver (fst (do_call O c (v, f) src cl)) = memo_after (fver src) v f /\
+      snd (do_call O c (v, f) src cl) = loaded_answer (if hitb (fver src) v then content_of v else f) cl.
     Proof.
-      intros Hi. unfold do_call, update, loaded_answer. cbn [fst snd].
-      assert (Hre : inv (fst (let (src', e) := reparse O c v (content_of v) in
-                         match e with Some e0 => (src', ARaise e0) | None => (src', answer_of c (st src') cl) end)) /\
-                    snd (let (src', e) := reparse O c v (content_of v) in
-                         match e with Some e0 => (src', ARaise e0) | None => (src', answer_of c (st src') cl) end)
-                    = match load O c (content_of v) with Exc e => ARaise e | Ok s => answer_of c s cl end).
-      { unfold reparse. destruct (load O c (content_of v)) eqn:Hl; cbn [fst snd].
-        - split; [|reflexivity]. unfold inv. cbn [fver st]. destruct (cache c); [exact Hl|exact I].
-        - split; [exact I|reflexivity]. }
-      destruct (cache c); [|exact Hre].
-      destruct (fver src) as [v'|] eqn:Hv; [|exact Hre].
-      destruct (N.eqb_spec v' v) as [->|Hne]; [|exact Hre].
-      cbn [fst snd]. split; [exact Hi|].
-      unfold inv in Hi. rewrite Hv in Hi. now rewrite Hi.
+      intros Hi Hf. unfold do_call, update, loaded_answer, memo_after, hitb. cbn [fst snd].
+      assert (Hre : forall b : bool, b = false ->
+                inv (fst (let (src', e) := reparse O c v f in
+                          match e with Some e0 => (src', ARaise e0) | None => (src', answer_of c (st src') cl) end)) /\
+                fver (fst (let (src', e) := reparse O c v f in
+                          match e with Some e0 => (src', ARaise e0) | None => (src', answer_of c (st src') cl) end))
+                = (if cache c then match load O c f with Ok _ => Some v | Exc _ => None end else None) /\
+                snd (let (src', e) := reparse O c v f in
+                     match e with Some e0 => (src', ARaise e0) | None => (src', answer_of c (st src') cl) end)
+                = match load O c f with Exc e => ARaise e | Ok s => answer_of c s cl end).
+      { intros _ _. unfold reparse. destruct (load O c f) eqn:Hl; cbn [fst snd fver st fresh].
+        - split; [|split; reflexivity]. unfold inv. cbn [fver st]. destruct (cache c); [|exact I].
+          destruct Hf as [->|(e & He)]; [exact Hl|congruence].
+        - split; [exact I|split; [destruct (cache c); reflexivity|reflexivity]]. }
+      destruct (cache c) eqn:Hc; cbn [andb].
+      - destruct (fver src) as [v'|] eqn:Hv.
+        + destruct (N.eqb_spec v' v) as [->|Hne].
+          * cbn [fst snd]. split; [exact Hi|]. split; [exact Hv|].
+            unfold inv in Hi. rewrite Hv in Hi. now rewrite Hi.
+          * apply (Hre false eq_refl).
+        + apply (Hre false eq_refl).
+      - apply (Hre false eq_refl).
     Qed.
 
+    Fixpoint cons_h (fs : N * fstate) (h : list hstep) : Prop :=
+      match h with
+      | [] => True
+      | SEdit v f :: r => f = content_of v /\ cons_h (v, f) r
+      | SCall _ :: r => cons_h fs r
+      | SCallF _ (FIO _) :: r => cons_h fs r
+      | SCallF _ (FStat tok) :: r => snd fs = content_of tok /\ cons_h fs r
+      end.
     Definition consistent (fs : N * fstate) (h : list hstep) : Prop :=
-      snd fs = content_of (fst fs) /\
-      Forall (fun s => match s with SEdit v f => f = content_of v | SCall _ => True end) h.
+      snd fs = content_of (fst fs) /\ cons_h fs h.
 
-    (* what the calls of a history would answer from a fresh parse of the content current at each call *)
-    Fixpoint spec_run (f : fstate) (h : list hstep) : list (answer * answer) :=
+    (* What the calls of a history answer: a fresh parse of the content current at each call.  A call with an
+       injected I/O fault raises that exception - unless the source holds the snapshot for the current stat
+       version, in which case it does not touch the file and answers as usual.  [memo] is the stat version the
+       snapshot is remembered for. *)
+    Fixpoint spec_run (memo : option N) (fs : N * fstate) (h : list hstep) : list (answer * answer) :=
       match h with
       | [] => []
-      | SEdit _ f' :: r => spec_run f' r
-      | SCall cl :: r => (spec_answer O c f cl, spec_answer O c f cl) :: spec_run f r
+      | SEdit v f :: r => spec_run memo (v, f) r
+      | SCall cl :: r =>
+          (spec_answer O c (snd fs) cl, spec_answer O c (snd fs) cl)
+          :: spec_run (memo_after memo (fst fs) (snd fs)) fs r
+      | SCallF cl flt :: r =>
+          let fs' := faulted fs flt in
+          (spec_answer O c (if hitb memo (fst fs') then snd fs else snd fs') cl, spec_answer O c (snd fs) cl)
+          :: spec_run (memo_after memo (fst fs') (snd fs')) fs r
       end.
 
     Lemma run_spec : forall h fs src, consistent fs h -> inv src ->
-      run O c fs src h = spec_run (snd fs) h.
+      run O c fs src h = spec_run (fver src) fs h.
     Proof.
       induction h as [|s h IH]; intros [v f] src [Hfs Hh] Hi; [reflexivity|].
-      cbn [fst snd] in Hfs. subst f. inversion Hh as [|s' h' Hs Hh']; subst.
-      destruct s as [v' f'|cl]; cbn [run spec_run snd].
-      - subst f'. apply IH; [split; [reflexivity|exact Hh']|exact Hi].
-      - destruct (do_call_inv v src cl Hi) as [Hi' Ha].
-        destruct (do_call O c (v, content_of v) src cl) as [src' a] eqn:Hd. cbn [fst snd] in Hi', Ha.
-        rewrite fresh_call. cbn [snd]. rewrite Ha, loaded_answer_spec. f_equal.
-        apply (IH (v, content_of v) src'); [split; [reflexivity|exact Hh']|exact Hi'].
+      cbn [fst snd] in Hfs. subst f.
+      destruct s as [v' f'|cl|cl flt]; cbn [run spec_run fst snd].
+      - destruct Hh as [-> Hh]. apply IH; [split; [reflexivity|exact Hh]|exact Hi].
+      - cbn [cons_h] in Hh.
+        destruct (do_call_gen v (content_of v) src cl Hi (or_introl eq_refl)) as (Hi' & Hm & Ha).
+        destruct (do_call O c (v, content_of v) src cl) as [src' a] eqn:Hd. cbn [fst snd] in Hi', Hm, Ha.
+        rewrite fresh_call. cbn [snd]. rewrite Ha, <- Hm.
+        assert (Hx : loaded_answer (if hitb (fver src) v then content_of v else content_of v) cl
+                     = spec_answer O c (content_of v) cl) by (destruct (hitb (fver src) v); apply loaded_answer_spec).
+        rewrite Hx, loaded_answer_spec. f_equal.
+        apply (IH (v, content_of v) src'); [split; [reflexivity|exact Hh]|exact Hi'].
+      - destruct flt as [e|tok]; cbn [faulted fst snd].
+        + cbn [cons_h] in Hh.
+          destruct (do_call_gen v (FFail e) src cl Hi (or_intror (ex_intro _ e eq_refl))) as (Hi' & Hm & Ha).
+          destruct (do_call O c (v, FFail e) src cl) as [src' a] eqn:Hd. cbn [fst snd] in Hi', Hm, Ha.
+          rewrite fresh_call. cbn [snd]. rewrite Ha, <- Hm, !loaded_answer_spec. f_equal.
+          apply (IH (v, content_of v) src'); [split; [reflexivity|exact Hh]|exact Hi'].
+        + cbn [cons_h snd] in Hh. destruct Hh as [Ht Hh].
+          destruct (do_call_gen tok (content_of v) src cl Hi (or_introl Ht)) as (Hi' & Hm & Ha).
+          destruct (do_call O c (tok, content_of v) src cl) as [src' a] eqn:Hd. cbn [fst snd] in Hi', Hm, Ha.
+          rewrite fresh_call. cbn [snd]. rewrite Ha, <- Hm, <- Ht.
+          assert (Hx : loaded_answer (if hitb (fver src) tok then content_of v else content_of v) cl
+                       = spec_answer O c (if hitb (fver src) tok then content_of v else content_of v) cl)
+            by apply loaded_answer_spec.
+          rewrite Hx, loaded_answer_spec. f_equal.
+          apply (IH (v, content_of v) src'); [split; [reflexivity|exact Hh]|exact Hi'].
     Qed.
   End History.
 
@@ -341,7 +393,7 @@ Section WithOracle.
       assert (G : forall f id k v, spec_answer O c f (CGet id) = AGet k v ->
                 (v = None /\ k = []) \/
                 (exists l, v = Some (o_hash O l) /\ exists r es, line_rec l = Some (r, es) /\ k = s_kids r)).
-      { intros f id k v0 H. destruct f as [| |s]; try discriminate. cbn [spec_answer] in H.
+      { intros f id k v0 H. destruct f as [| |s|e0]; try discriminate. cbn [spec_answer] in H.
         destruct (first_error O c [] (file_lines s)) eqn:He; [discriminate|].
         destruct (hashable id); [|discriminate].
         destruct (systems_first (file_lines s) [] id He eq_refl) as [H1 H2].
